@@ -348,8 +348,11 @@ def run_c19(tier, seed, replay=None):
 
 
 # =====================================================================  C20
-MESHES = dict(quick=['tet1', 'tetfan', 'polyfan', 'polydel', 'polymix', 'hex1', 'hexblock221'],
-              thorough=['tet1', 'tetfan', 'polyfan', 'polydel', 'polymix', 'hex1', 'hexblock221', 'hexblock222', 'hexblock321'])
+MESHES = dict(quick=['tet1', 'tetfan', 'polyfan', 'polydel', 'polymix', 'hex1', 'hexblock221',
+                     # incidence configurations <vertex><edge><face>: 0 = that bottom-up incidence kind disabled
+                     'polyfan#000', 'polyfan#011', 'polyfan#101', 'polyfan#110', 'polymix#000'],
+              thorough=['tet1', 'tetfan', 'polyfan', 'polydel', 'polymix', 'hex1', 'hexblock221', 'hexblock222', 'hexblock321']
+                       + ['%s#%s' % (m, c) for m in ('polyfan', 'polymix', 'polydel') for c in ('000', '001', '010', '011', '100', '101', '110')])
 GEN = dict(quick=dict(ThreadCounts=[2, 3, 4, 8, 16], SameCounts=[2, 4, 16], LockCounts=[2, 4], RndCases=2, RndLen=200, Reps=3, RepsBig=20),
            thorough=dict(ThreadCounts=[2, 3, 4, 5, 6, 8, 12, 16], SameCounts=[2, 3, 4, 8, 16], LockCounts=[2, 3, 4, 8], RndCases=6, RndLen=400, Reps=8, RepsBig=50))
 # (name, readers, hazard, program length, query set); hazards are negative controls: TLC must reject them
@@ -505,7 +508,7 @@ def run_c20(tier, seed, replay=None):
                     i = loads.index(min(loads))
                     parts[i].append(c); loads[i] += sum(len(p) for p in c['progs'])
                 for i, part in enumerate(parts):
-                    sp = os.path.join(work, 'rd-%s-%d.txt' % (m, i))
+                    sp = os.path.join(work, 'rd-%s-%d.txt' % (m.replace('#', '_'), i))
                     open(sp, 'w').write(c20_script(m, alpha[m], sorted(part, key=lambda c: c['case'])))
                     scripts.append(sp)
                 gen_info[m] = dict(queries=len(alpha[m]), cases=len(cs), threads=sorted({c['threads'] for c in cs}))
